@@ -631,8 +631,17 @@ fn long_lived_stream(stream: usize, limit: usize, st: &mut Stats) -> Result<(), 
 /// values that mix ASCII with another script, keys with spaces ...): the list is present from the start and also
 /// arrives late (update-engine), its keys are typed alone and with suffixes.  Only panics are judged here.
 fn loadable_user_values(run: &Run) {
-    use crate::props::c10::{check_fault, check_late, odd_content, Fault};
-    let docs = odd_content();
+    use crate::props::c10::{check_fault, check_late, malformed_corpus, odd_content, Fault};
+    let mut docs = odd_content();
+    // ... and the short UNREADABLE ones as well (C10 judges what they do; here only that nothing panics): the malformed
+    // corpus and every cut-off of a document that starts with a byte order mark
+    docs.extend(malformed_corpus().into_iter().filter(|d| d.len() <= 64));
+    let bom_doc: Vec<u8> = [&[0xEF, 0xBB, 0xBF][..], b"{\"a\":\"o\"}"].concat();
+    for i in 1..=bom_doc.len() {
+        docs.push(bom_doc[..i].to_vec());
+    }
+    docs.push(vec![0xEF]);
+    docs.push(vec![0xFF, 0xFE]);
     run.exhaustive(
         "loadable-user-auto-correct-values-of-every-kind",
         &docs,
